@@ -79,7 +79,7 @@ def run_public(ctx: Ctx, case: dict, tags: list[str], pairs: list) -> None:
         if tr is None:
             continue
         mcase, impl = tr
-        mcase["origin"] = {"series": sid, "loop_case": g.canon_small(case)}
+        mcase["origin"] = {"series": sid, "loop_case": case}
         impl_full = dict(impl)
         # the driver also reports the final buffer; not observable per series on this path
         impl_full["buf"] = None
@@ -98,6 +98,8 @@ def run(ctx: Ctx) -> None:
             run_public(ctx, case, ["corpus"], pairs)
     n_helper = ctx.budget(3000, 100000)
     for i in range(n_helper):
+        if ctx.boost > 1 and ctx.violations and i >= 2000:
+            break  # the boosted run is a search for a failing input: one has been found
         rng = ctx.subrng("helper", i)
         r = rng.random()
         case, tags = g.gen_helper_case(rng, ordered=r < 0.9, exotic=r > 0.97)
@@ -107,6 +109,8 @@ def run(ctx: Ctx) -> None:
             run_helper(ctx, case, ["exhaustive-small-scope"], pairs)
     n_public = ctx.budget(400, 12000)
     for i in range(n_public):
+        if ctx.boost > 1 and ctx.violations and i >= 300:
+            break
         rng = ctx.subrng("public", i)
         case, tags = g.gen_loop_case(rng, with_samples=True, allow_remove=False, max_ticks=14)
         run_public(ctx, case, tags, pairs)
